@@ -9,8 +9,8 @@
        harness, not proved.  NumPy's svd and eigh appear as the functions `polar` and
        `eigmax` with explicit premises. *)
 From Coq Require Import ZArith List Bool QArith Reals.
-From Flocq Require Import IEEE754.Binary IEEE754.Bits IEEE754.BinarySingleNaN.
-From NV Require Import Base.Bytes C04.Tables C04.Model C04.ModelR C04.Lemmas C04.LemmasR C04.LemmasS C04.LemmasF.
+From Flocq Require Import Core.Core IEEE754.Binary IEEE754.Bits IEEE754.BinarySingleNaN.
+From NV Require Import Base.Bytes C04.Tables C04.Model C04.ModelR C04.Lemmas C04.LemmasR C04.LemmasS C04.LemmasF C04.LemmasF32.
 Import ListNotations.
 Open Scope Z_scope.
 
@@ -268,6 +268,32 @@ Theorem C04_spm_mat_roundtrip_float_refuted :
   /\ bits_of_b64 t_w = 4634392439000204109.
 Proof. exact spm_float_witness. Qed.
 Print Assumptions C04_spm_mat_roundtrip_float_refuted.
+
+
+(* EXACT FLOAT (Flocq): the value read back from a float32 header field (srow, qoffset, pixdim
+   of NIfTI-1 / Analyze / SPM; delta, Mdc, Pxyz_c of MGH) after storing a finite binary64 value x
+   is exactly the round-to-nearest-even binary32 of x (no overflow), is finite, and in the
+   normal range differs from x by at most 2^-24 |x| = eps32/2 |x| — the "float32-rounded matrix"
+   of the statement and the 1-ulp translation tolerance of the harness.  `narrow` is the IEEE
+   conversion binary64 -> binary32 (cross-checked against NumPy's cast on every run). *)
+Theorem C04_sform_float32_exact : forall x : b64,
+  BinarySingleNaN.is_finite x = true ->
+  (Rabs (round radix2 fexp32 ZnearestE (BinarySingleNaN.B2R x)) < bpow radix2 128)%R ->
+  BinarySingleNaN.B2R (widen (narrow x)) = round radix2 fexp32 ZnearestE (BinarySingleNaN.B2R x)
+  /\ BinarySingleNaN.is_finite (widen (narrow x)) = true
+  /\ ((bpow radix2 (-126) <= Rabs (BinarySingleNaN.B2R x))%R ->
+      (Rabs (BinarySingleNaN.B2R (widen (narrow x)) - BinarySingleNaN.B2R x)
+       <= bpow radix2 (-24) * Rabs (BinarySingleNaN.B2R x))%R).
+Proof. exact sform_float32_exact. Qed.
+Print Assumptions C04_sform_float32_exact.
+
+(* the rounding is applied once: a float32 value widened to binary64 and stored again is unchanged
+   (second save, shortcut or not, cannot drift) *)
+Theorem C04_round32_idempotent : forall y : b32,
+  BinarySingleNaN.is_finite y = true ->
+  BinarySingleNaN.B2R (narrow (widen y)) = BinarySingleNaN.B2R y.
+Proof. exact round32_idempotent. Qed.
+Print Assumptions C04_round32_idempotent.
 
 (* ---------------------------------------------------------------- non-vacuity *)
 (* the hypotheses of the codec theorems hold on a concrete NIfTI-1 style header (code width 2,
